@@ -129,6 +129,61 @@ def readAll (d : Nat) : Rd → List Nat → List UInt8 × Option Err
 def WFAt (d : Nat) (D : Bits) (s : Rd) (pos : Nat) : Prop :=
   WFd d s ∧ isReader s = true ∧ den s = D ∧ posOf s = pos
 
+/-! ### histories: any sequence of reads, seeks and clones against a cursor over the denoted bits -/
+
+inductive HOp
+  | readAt (n off : Nat)
+  | read (n : Nat)
+  | seek (off : Int) (w : Whence)
+  | clone
+deriving Repr, DecidableEq
+
+def HOp.toOp : HOp → Op
+  | .readAt n off => .readAt n off
+  | .read n => .read n
+  | .seek off w => .seek off w
+  | .clone => .clone
+
+/-- SectionReader or MultiReader on top: what fq hands out (NewBitReader, bitiox.Range, Binary.toReader, gzip members) -/
+def topSM : Rd → Bool
+  | .sect .. | .multi .. => true
+  | _ => false
+
+def seekTargetBits (len pos : Nat) (off : Int) : Whence → Int
+  | .start => off
+  | .current => (pos : Int) + off
+  | .end_ => (len : Int) + off
+
+/-- what a cursor at `pos` over the bit string D allows as the result `res` of `op`; `pos'` = the cursor afterwards.
+    A seek is rejected (ErrOffset, cursor unchanged) only for a target outside [0, len] and accepted only for a
+    target ≥ 0 (SectionReader accepts targets beyond the end: reads there report EOF). -/
+def CursorStep (D : Bits) (pos : Nat) (op : HOp) (res : Res) (pos' : Nat) : Prop :=
+  match op with
+  | .readAt n off => SoundAt D off n res ∧ pos' = pos
+  | .read n => SoundAt D pos n res ∧ pos' = pos + res.bits.length
+  | .seek off w =>
+    (res.err = none ∧ res.n = seekTargetBits D.length pos off w ∧ 0 ≤ seekTargetBits D.length pos off w ∧
+        (pos' : Int) = seekTargetBits D.length pos off w) ∨
+    (res.err = some .offset ∧ pos' = pos ∧
+        (seekTargetBits D.length pos off w < 0 ∨ (D.length : Int) < seekTargetBits D.length pos off w))
+  | .clone => res.err = none ∧ pos' = 0
+
+/-- run a history on the model (the state after `clone` is the clone); stops at the first outcome that is not ok -/
+def runH (d : Nat) : Rd → List HOp → List (HOp × Outcome Res)
+  | _, [] => []
+  | s, op :: ops =>
+    match step d s op.toOp with
+    | .ok (s', res) => (op, .ok res) :: runH d s' ops
+    | .fault w => [(op, .fault w)]
+    | .hang => [(op, .hang)]
+    | .unsupported w => [(op, .unsupported w)]
+
+/-- every observation of the history is allowed by the cursor (in particular: no Go panic, no hang) -/
+def HistOK (D : Bits) : Nat → List (HOp × Outcome Res) → Prop
+  | _, [] => True
+  | pos, (op, .ok res) :: rest => ∃ pos', CursorStep D pos op res pos' ∧ HistOK D pos' rest
+  | _, _ :: _ => False
+
 /-! ### aheadreadseeker against bytes.Reader -/
 
 /-- invariant of aheadreadseeker.Reader over a bytes.Reader / file with content `data`:
